@@ -455,7 +455,13 @@ theorem deferred_kept (c : Cfg) : ∀ (f : Nat) (call : Call) (w : World),
     have hfl := flags c f
     cases call with
     | stmts l => cases l <;> run_cases hrun with grind [Call.deferring]
-    | stmt s => cases s <;> run_cases hrun with grind [Res.andThen, Call.deferring]
+    | stmt s =>
+      by_cases hcs : ∃ p v, s = .clsSet p v
+      · obtain ⟨p, v, rfl⟩ := hcs
+        simp only [run] at hrun
+        subst hrun
+        exact ⟨fun e he => he, fun x hx => List.mem_map.2 ⟨x, hx, rfl⟩⟩
+      · cases s <;> first | (exact absurd ⟨_, _, rfl⟩ hcs) | (run_cases hrun with grind [Res.andThen, Call.deferring])
     | setAttr p v => run_cases hrun with grind [Res.andThen, Call.deferring]
     | setPlain p v => run_cases hrun with grind [Res.andThen, Call.deferring]
     | setSlot p k v => run_cases hrun with grind [Res.andThen, Call.deferring]
@@ -693,9 +699,9 @@ theorem setPlain_in_batch (c : Cfg) (f : Nat) (w : World) (p : Nat) (v : Int) (h
       · simp [he]
       · simp only [he, Bool.false_eq_true, if_false] at h ⊢
         have hd := dispatch_in_batch_keeps_vals c { name := p, old := getVal w p, new := v } (sortByPrec (regsFor w p)) f
-          { w with vals := w.vals.set p v } hb
-        have hfl := flags c f (.dispatch (sortByPrec (regsFor w p)) { name := p, old := getVal w p, new := v }) { w with vals := w.vals.set p v }
-        generalize run c f (.dispatch (sortByPrec (regsFor w p)) { name := p, old := getVal w p, new := v }) { w with vals := w.vals.set p v } = d at h hd hfl ⊢
+          { w with vals := w.vals.set p v, owned := p :: w.owned } hb
+        have hfl := flags c f (.dispatch (sortByPrec (regsFor w p)) { name := p, old := getVal w p, new := v }) { w with vals := w.vals.set p v, owned := p :: w.owned }
+        generalize run c f (.dispatch (sortByPrec (regsFor w p)) { name := p, old := getVal w p, new := v }) { w with vals := w.vals.set p v, owned := p :: w.owned } = d at h hd hfl ⊢
         obtain ⟨r1, w2, o1⟩ := d
         simp only at h hd hfl ⊢
         cases r1 with
